@@ -25,7 +25,9 @@ AllowedAdminOf(p) == IF p = "methods2" THEN {"DescribeCluster"}
 AlwaysDenied == {"RegisterNamespace", "DeprecateNamespace"}
 \* names the caller may put into the request's namespace field ("-" = the request has no such field / leave it empty)
 \* mapping (local -> remote): ns-allowed <-> ns-remote-ok, ns-forbidden <-> ns-remote-bad
-Names == {"ns-remote-ok", "ns-remote-bad", "ns-allowed", "ns-unmapped"}
+\* "Ns-Allowed" / "ns-allowed " : near misses of the allowed name (letter case, trailing blank). Names are compared exactly:
+\* neither is mapped, neither is on the allow-list.
+Names == {"ns-remote-ok", "ns-remote-bad", "ns-allowed", "ns-unmapped", "Ns-Allowed", "ns-allowed "}
 ToLocal(x) == IF x = "ns-remote-ok" THEN "ns-allowed" ELSE IF x = "ns-remote-bad" THEN "ns-forbidden" ELSE x
 ToRemote(x) == IF x = "ns-allowed" THEN "ns-remote-ok" ELSE IF x = "ns-forbidden" THEN "ns-remote-bad" ELSE x
 AllowedNs == {"ns-allowed"}
@@ -77,9 +79,10 @@ RespName(c) == IF ~c.mapping \/ c.bypass THEN SeenName(c)
                ELSE IF c.side = "inbound" THEN ToRemote(SeenName(c)) ELSE ToLocal(SeenName(c))
 
 (* ---------------- listing namespaces returns only allowed ones (C16) ------- *)
-\* the local cluster answers ListNamespaces with a page of allowed ("a") and forbidden ("f") namespaces in some order;
+\* the local cluster answers ListNamespaces with a page of allowed ("a"), forbidden ("f") and near-miss ("c": the allowed name in
+\* another letter case, which is a different namespace and not on the list) namespaces in some order;
 \* the remote caller sees exactly the allowed ones, in order (under their remote names when a mapping is configured)
-ListShapes == UNION {[1..n -> {"a", "f"}] : n \in 0..4}
+ListShapes == UNION {[1..n -> {"a", "f", "c"}] : n \in 0..4}
 ListCases == [shape : ListShapes, mapping : BOOLEAN, transport : {"tcp", "mux"}]
 SelectSeq2(q, T(_)) == LET F[i \in 0..Len(q)] == IF i = 0 THEN <<>> ELSE IF T(q[i]) THEN Append(F[i - 1], q[i]) ELSE F[i - 1] IN F[Len(q)]
 IsA(x) == x = "a"
